@@ -37,6 +37,9 @@ def gen(rng, flavour):
     def ids(k):
         r = list(range(nid[0], nid[0] + k))
         nid[0] += k
+        if flavour != 'c08' and r and rng.random() < 0.08:
+            # an element that happens to be an exception instance (the result of a gather(return_exceptions=True), say)
+            r[rng.randrange(len(r))] = ('EXC', r[0])
         return r
 
     delta = rng.choice([0, 0, 0, U / 64, -U / 64])      # +-jitter explores both sides of exact ties
@@ -54,12 +57,16 @@ def gen(rng, flavour):
         elif k in ('maplist', 'mapiter', 'amap'):
             mlen = rng.randint(0, 3)
             fail = None
-            if flavour != 'c08' and k != 'maplist' and rng.random() < 0.3:
+            if k != 'maplist' and rng.random() < (0.3 if flavour != 'c08' else 0.2):
                 fail = rng.randint(0, mlen)
             d = rng.choice([0, T / 4, T]) if k in ('amap', 'mapiter') and flavour != 'c08' else 0
             acts.append({'t': t, 'k': k, 'ids': ids(mlen), 'd': d, 'fail': fail})
         else:
             acts.append({'t': t, 'k': k, 'ids': [], 'd': 0, 'fail': None})
+    if flavour == 'c07' and rng.random() < 0.02:
+        # several hundred plain submissions at once
+        acts.append({'t': rng.choice([0, t / 2, t]), 'k': 'burst', 'ids': [f'b{j}' for j in range(rng.choice([255, 257, 300]))],
+                     'd': 0, 'fail': None})
     p_fail = {'c03': 0.25, 'c07': 0.2, 'c08': 0.1}[flavour]
     fails = sorted(i for i in range(6) if rng.random() < p_fail)
     foreign = []
@@ -77,7 +84,7 @@ def gen(rng, flavour):
            'deco': rng.random() < 0.3,
            # what a failing function / producer raises: an ordinary exception, or a CancelledError of its own
            # (e.g. an inner task somebody else cancelled) - a failure like any other for the buffer
-           'fail_exc': rng.choice(['harness', 'harness', 'cancelled'])}
+           'fail_exc': rng.choice(['harness', 'harness', 'cancelled', 'timeout'])}
     shutdown = None
     if flavour == 'c07' and rng.random() < 0.45:
         horizon = (acts[-1]['t'] if acts else 0) + 2 * T
@@ -121,12 +128,27 @@ class BufferHarness:
             ninv = [0]
 
             def make_exc(tag):
-                return aio.CancelledError(tag) if cfg.get('fail_exc') == 'cancelled' else HarnessError(tag)
+                fe = cfg.get('fail_exc')
+                return aio.CancelledError(tag) if fe == 'cancelled' else TimeoutError(tag) if fe == 'timeout' else HarnessError(tag)
+
+            excs = {}
+
+            def real(x):
+                """('EXC', n) stands for an exception instance used as an ordinary element"""
+                if isinstance(x, tuple) and x and x[0] == 'EXC':
+                    return excs.setdefault(x, ValueError('an element', x[1]))
+                return x
+
+            def unreal(x):
+                for k_, v_ in excs.items():
+                    if v_ is x:
+                        return k_
+                return x
 
             async def func(args):
                 ninv[0] += 1
                 n = ninv[0]
-                emit('fstart', n, frozenset(args))
+                emit('fstart', n, frozenset(unreal(a) for a in args))
                 try:
                     if cfg['fdur']:
                         await aio.sleep(cfg['fdur'])
@@ -143,11 +165,15 @@ class BufferHarness:
 
             def submit(buf, who, sid, a, loop_name):
                 k = a['k']
-                ids_ = list(a['ids'])
+                ids_ = [real(x) for x in a['ids']]
                 d = a.get('d', 0)
                 fail = a.get('fail')
-                if k == 'call':
-                    emit('sub', sid, k, who, tuple(ids_))
+                if k == 'burst':
+                    emit('sub', sid, k, who, tuple(a['ids']))
+                    for x in ids_:
+                        buf(x)
+                elif k == 'call':
+                    emit('sub', sid, k, who, tuple(a['ids']))
                     buf(ids_[0])
                 elif k == 'await':
                     async def aw():
@@ -156,14 +182,14 @@ class BufferHarness:
                                 await aio.sleep(d)
                             if fail is not None:
                                 raise make_exc('producer')
-                            emit('produced', sid, ids_[0])
+                            emit('produced', sid, a['ids'][0])
                             return ids_[0]
                         finally:
                             emit('prod_end', sid)
-                    emit('sub', sid, k, who, () if fail is not None else tuple(ids_))
+                    emit('sub', sid, k, who, () if fail is not None else tuple(a['ids']))
                     buf.await_(aw())
                 elif k == 'maplist':
-                    emit('sub', sid, k, who, tuple(ids_))
+                    emit('sub', sid, k, who, tuple(a['ids']))
                     buf.map(list(ids_))
                 elif k == 'mapiter':
                     def g():
@@ -173,13 +199,13 @@ class BufferHarness:
                                     simrt.sim_sleep(d)          # blocks the helper thread, not the loop
                                 if fail == j:
                                     raise make_exc('producer')
-                                emit('produced', sid, x)
+                                emit('produced', sid, unreal(x))
                                 yield x
                             if fail == len(ids_):
                                 raise make_exc('producer')
                         finally:
                             emit('prod_end', sid)
-                    got = tuple(ids_[:fail]) if fail is not None else tuple(ids_)
+                    got = tuple(a['ids'][:fail]) if fail is not None else tuple(a['ids'])
                     emit('sub', sid, k, who, got)
                     buf.map(g())
                 elif k == 'amap':
@@ -190,13 +216,13 @@ class BufferHarness:
                                     await aio.sleep(d)
                                 if fail == j:
                                     raise make_exc('producer')
-                                emit('produced', sid, x)
+                                emit('produced', sid, unreal(x))
                                 yield x
                             if fail == len(ids_):
                                 raise make_exc('producer')
                         finally:
                             emit('prod_end', sid)
-                    got = tuple(ids_[:fail]) if fail is not None else tuple(ids_)
+                    got = tuple(a['ids'][:fail]) if fail is not None else tuple(a['ids'])
                     emit('sub', sid, k, who, got)
                     buf.amap(ag())
 
@@ -216,7 +242,6 @@ class BufferHarness:
                 box['buf'] = buf
                 box['loop'] = loop
                 box['bg'] = [t for t in aio.all_tasks(loop) if t not in before]
-                box['ready'] = True
 
                 async def act(i, a):
                     if a['t']:
@@ -229,6 +254,7 @@ class BufferHarness:
                         submit(buf, 'L', f'L{i}', a, 'L')
 
                 async def main_coro():
+                    box['ready'] = True          # foreign threads start only once this loop is running
                     await aio.gather(*(act(i, a) for i, a in enumerate(prog['acts'])))
                     while box['fdone'] < nforeign:
                         await aio.sleep(T)
@@ -513,7 +539,22 @@ def _state_at(v: BView, pos):
     return 'idle'
 
 
-def judge_c08(v: BView, res: CaseResult, prog):
+def judge_c08_always(v: BView, res: CaseResult):
+    """The two clauses of C08 that hold for every history, whoever submits: never running twice at once, never empty."""
+    open_ = None
+    for e in v.log:
+        if e[0] == 'fstart':
+            if open_ is not None:
+                res.violate('C08:overlap', 'function invoked while the previous invocation was still running')
+            open_ = e[1]
+            if not e[2]:
+                res.violate('C08:empty-call', 'function called with an empty set')
+        elif e[0] == 'fend' and e[1] == open_:
+            open_ = None
+    res.stats['invocations_judged_O1_O2'] += len(v.fs)
+
+
+def judge_c08(v: BView, res: CaseResult, prog, complete=True):
     st = res.stats
     T = prog['cfg']['T']
     m = T / 64          # judging margin; the generator's 'just below / just above' offsets are T/16
@@ -548,6 +589,11 @@ def judge_c08(v: BView, res: CaseResult, prog):
                 res.violate('C08:early-call', 'function started less than `timeout` after an arrival',
                             start=s0, arrival=a, timeout=T)
                 break
+    if not complete:
+        # the execution did not run to its end (C07's subject): the clauses above are safety clauses and hold for
+        # any prefix; 'one call per burst with everything' needs the complete history
+        st['prefix_only_judged_O1_O3'] += 1
+        return
     busy = [(e[3], fe[e[1]][3] if e[1] in fe else float('inf')) for e in fs]
 
     def idle(t):
@@ -633,6 +679,10 @@ class BufferCheck(Check):
         n = self.SIZES[tier]
         nreal = self.REAL[tier] if self.pid in ('C03', 'C07') else 0
         every = max(1, n // max(1, nreal)) if nreal else 0
+        if self.pid == 'C08':
+            # the never-overlapping / never-empty clauses under foreign submitting threads (line-level interleavings)
+            for i in range(6000 if tier == 'quick' else 120000):
+                yield {'o12': True, 'seed': (seed << 32) + i}
         if self.pid == 'C07':
             # loop.stop() at EVERY yield point of the loop thread for four short programs, then shutdown
             for which in range(4):
@@ -673,7 +723,13 @@ class BufferCheck(Check):
             r = self.h.run(prog, strat, self.flavour, stop_at=case['stop_at'])
             return self.judge(case, prog, strat, r)
         rng = random.Random(case['seed'])
-        prog = gen(rng, self.flavour)
+        prog = gen(rng, self.flavour if not case.get('o12') else 'c03')
+        if case.get('o12'):
+            while not prog['foreign']:
+                prog = gen(rng, 'c03')
+            if rng.random() < 0.5:
+                for fa in prog['foreign']:
+                    fa[0]['t'] = 0.0          # the very first submissions of several threads at the same moment
         if prog['foreign']:
             k = rng.random()
             if k < 0.6:
@@ -746,10 +802,13 @@ class BufferCheck(Check):
             res.nontrivial = bool(st.get('waits_issued_with_undelivered')) or \
                 any(k.startswith('shutdown_in_state_') and k != 'shutdown_in_state_idle' for k in st) or \
                 any(vv['sig'].startswith('C07:shutdown') for vv in res.violations)
+        elif case.get('o12'):
+            judge_c08_always(v, res)
+            st['foreign_thread_programs_judged_O1_O2'] += 1
+            res.nontrivial = len(v.fs) >= 2
         else:
-            if r.verdict is None:
-                judge_c08(v, res, prog)
-            else:
+            judge_c08(v, res, prog, complete=r.verdict is None)
+            if r.verdict is not None and not res.violations:
                 res.inconclusive = f'{r.verdict} (termination is C07\'s subject)'
             res.nontrivial = bool(st.get('multi_arrival_bursts_judged') or st.get('arrival_during_run_or_retry'))
         if res.nontrivial:
@@ -772,7 +831,7 @@ class BufferCheck(Check):
                 f[f'wait_in_state_{s_}'] = 200 * k
             f['shutdown_in_state_idle'] = 100 * k
             return f
-        return {'bursts_judged_O4': 5000 * k, 'multi_arrival_bursts_judged': 1500 * k,
+        return {'foreign_thread_programs_judged_O1_O2': 3000 * k, 'bursts_judged_O4': 5000 * k, 'multi_arrival_bursts_judged': 1500 * k,
                 'arrival_during_run_or_retry': 1000 * k, 'invocations_judged_O3': 5000 * k}
 
     @property
